@@ -188,6 +188,27 @@ def check_shape(t, acc):
         lo @= old
     except Exception as ex:
       fail("raised", b, "no exception", f"{type(ex).__name__}: {str(ex)[:120]}")
+  # two type definitions with the SAME class name and the same (name, type) pairs in a different order are different types:
+  # each must pack in its own declaration order (a class cache keyed without the order would hand back the first one)
+  if len(t[2]) >= 2 and len({fn for fn, _ in t[2]}) == len(t[2]):
+    try:
+      from pymtl3.datatypes import mk_bitstruct
+      nm = f"Perm_{next(_uid)}"
+      order1 = list(t[2])
+      order2 = list(reversed(t[2]))
+      cls1 = mk_bitstruct(nm, {fn: mk_class(ft) for fn, ft in order1})
+      cls2 = mk_bitstruct(nm, {fn: mk_class(ft) for fn, ft in order2})
+      t2 = ("S", t[1], tuple(order2))
+      for b in (vals[1 % len(vals)], vals[-1], vals[len(vals) // 2]):
+        acc.count("evaluations")
+        tree = layout.unpack(t2, b)
+        got = read(t2, cls2.from_bits(Bits(W, b)))
+        if got != tree: fail("same-name-permuted-fields:from_bits", b, tree, got, "second definition decoded in the order of the first"); break
+        obj = cls2(**{fn: build(ft, tree[fn]) for fn, ft in order2})
+        if int(obj.to_bits()) != b: fail("same-name-permuted-fields:to_bits", b, b, int(obj.to_bits()), "second definition packed in the order of the first"); break
+        if int(cls1.from_bits(Bits(W, b)).to_bits()) != b: fail("same-name-permuted-fields:first-definition", b, b, int(cls1.from_bits(Bits(W, b)).to_bits())); break
+    except Exception as ex:
+      fail("same-name-permuted-fields:raised", None, "no exception", f"{type(ex).__name__}: {str(ex)[:120]}")
   acc.count("shapes")
   if len(leaves) >= 2: acc.count("nontrivial_shapes")
   if _has_list(t): acc.count("shapes_with_lists")
